@@ -70,6 +70,9 @@ func loopUnder(b []byte, sched iosim.Schedule, nameArgs bool, cov *Cov, keep boo
 // CheckC09 executes one case: baseline (one-shot delivery) against the case's
 // schedule.
 func CheckC09(c *Case, cov *Cov) []*Violation {
+	if f := extraModes["C09/"+c.Mode]; f != nil {
+		return f(c, cov)
+	}
 	b := c.Stream().Bytes
 	sched := c.Sched.FitTo(len(b))
 	base, bt, _ := loopUnder(b, iosim.OneShot(len(b)), c.NameArgs, nil, false)
@@ -320,6 +323,7 @@ func init() {
 		Run:       RunC09,
 		Check:     CheckC09,
 		MustReach: []string{"literal-corpus", "malformed-dump", "bom-prefixed-stream", "jumping-clock"},
+		Posts:     []func(uint64, string, *Cov) ([]*Violation, map[string]any, error){postCLI("C09")},
 		Quick:     600, Thorough: 40000,
 		Rule: "one evaluation = the resume loop over one generated stream under one delivery schedule, compared with one-shot delivery of the same bytes; schedules per stream: every single split point (streams <= 6 KiB; sampled around line ends and 16 KiB multiples for longer ones) with both EOF kinds, byte-wise and fixed chunk sizes around 4096/16384, and seeded random schedules with zero-length reads (<= 99 in a row), short reads and boundaries attracted to line ends; distinct_nontrivial = distinct (stream hash, schedule) pairs whose stream contains at least one dump and whose schedule has >= 2 producer steps or a fault",
 		Assumptions: []string{
@@ -327,7 +331,7 @@ func init() {
 			"zero-length reads are limited to 99 in a row: 100 is the documented io.ErrNoProgress bound and is not required to be equivalent",
 			"Opts: GuessPaths and AnalyzeSources off (no disk access in this property)",
 		},
-		Real:  []string{"stack.ScanSnapshot", "stack.reader (fill/readSlice/readLine)", "the scanner state machine", "the documented resume protocol (io.MultiReader(suffix, rest))"},
+		Real:  []string{"stack.ScanSnapshot", "stack.reader (fill/readSlice/readLine)", "the scanner state machine", "the documented resume protocol (io.MultiReader(suffix, rest))", "internal.process (the command's resume loop; clisim stage: output and error under a schedule vs the same bytes delivered at once)"},
 		Stubs: []string{"io.Reader producer (iosim.SimReader)", "io.Writer sink (iosim.SimWriter)"},
 	})
 }
